@@ -154,7 +154,11 @@ func (mc *MemCtx) Read(m *Mem, a *Term) *Term {
 	var r *Term
 	switch m.kind {
 	case mBase:
-		if m.entry {
+		if rt, k := addrRoot(a); m.entry && k == 1 && rt.K > 0 {
+			// a cell of an object allocated during the call that was never written: zero
+			// (declared fields are zero-initialised explicitly; this covers ghost cells of new objects)
+			r = mc.zero(m.S)
+		} else if m.entry {
 			r = c.EntryApp(m.name, m.S, a)
 		} else {
 			r = c.App(m.name, m.S, a)
